@@ -163,6 +163,33 @@ fn main() {
                 engines::auth::check(&check_args)
             } else if engines::stream::PROPERTIES.contains(&p) {
                 engines::stream::check(&check_args)
+            } else if p == "C04" {
+                // two parts: the worker state machines in cluster runs (task ends, cancels,
+                // launch failures, kills around the allocator), then the allocator alone
+                let cluster_code = batch::check_cluster(&check_args);
+                let ev = check_args.verif_dir.join("evidence").join("C04.json");
+                let cluster_ev: Option<serde_json::Value> = std::fs::read_to_string(&ev)
+                    .ok()
+                    .and_then(|t| serde_json::from_str(&t).ok());
+                let alloc_code = engines::alloc::check(&check_args);
+                if let (Some(c), Some(mut a)) = (
+                    cluster_ev,
+                    std::fs::read_to_string(&ev)
+                        .ok()
+                        .and_then(|t| serde_json::from_str::<serde_json::Value>(&t).ok()),
+                ) {
+                    let cv = c.get("violations").and_then(|v| v.as_u64()).unwrap_or(0);
+                    let av = a.get("violations").and_then(|v| v.as_u64()).unwrap_or(0);
+                    a["violations"] = serde_json::json!(cv + av);
+                    let cw = c.get("wall_s").and_then(|v| v.as_f64()).unwrap_or(0.0);
+                    let aw = a.get("wall_s").and_then(|v| v.as_f64()).unwrap_or(0.0);
+                    a["wall_s"] = serde_json::json!(cw + aw);
+                    if let Some(cov) = a.get_mut("coverage") {
+                        cov["worker_state_machine_part"] = c.get("coverage").cloned().unwrap_or_default();
+                    }
+                    batch::write_json(&ev, &a);
+                }
+                cluster_code.max(alloc_code)
             } else if engines::alloc::PROPERTIES.contains(&p) {
                 engines::alloc::check(&check_args)
             } else if engines::autoalloc::PROPERTIES.contains(&p) {
